@@ -153,6 +153,16 @@ def run_server(kconfig, sdkconfig, sdkconfig_rename, default_version=MAX_PROTOCO
             sys.stdout.write("\n")
             sys.stdout.flush()
             continue
+        type_errors = _drop_ill_typed_parts(req)
+        if not isinstance(req, dict) or "version" in type_errors:
+            # Nothing in such a request can be interpreted; the configuration is left untouched.
+            errors = list(type_errors.values())
+            for err in errors:
+                log.err(escape(str(err)))
+            json.dump({"version": default_version, "error": errors}, sys.stdout)
+            sys.stdout.write("\n")
+            sys.stdout.flush()
+            continue
         before = kconfgen.get_json_values(config)
         before_ranges = get_ranges(config)
         before_visible = get_visible(config)
@@ -186,7 +196,8 @@ def run_server(kconfig, sdkconfig, sdkconfig_rename, default_version=MAX_PROTOCO
                 else:
                     sdkconfig = req["save"]
 
-            error = handle_request(config, req)
+            # ill-typed parts were dropped from the request, the rest of it is processed as usual
+            error = list(type_errors.values()) + handle_request(config, req)
 
             after = kconfgen.get_json_values(config)
             after_ranges = get_ranges(config)
@@ -229,6 +240,30 @@ def run_server(kconfig, sdkconfig, sdkconfig_rename, default_version=MAX_PROTOCO
         json.dump(response, sys.stdout)
         sys.stdout.write("\n")
         sys.stdout.flush()
+
+
+def _drop_ill_typed_parts(req) -> Dict[str, str]:
+    """
+    Check that a decoded request is a JSON object whose documented keys hold values of the documented JSON types.
+    Ill-typed 'set', 'reset', 'load' and 'save' parts are removed from the request, as if they had not been sent.
+    Returns a dict mapping the offending key ("request" if the request is not an object) to an error message.
+    """
+    if not isinstance(req, dict):
+        return {"request": "Request must be a JSON object"}
+    error = {}
+    if "version" in req and (isinstance(req["version"], bool) or not isinstance(req["version"], int)):
+        error["version"] = "Request 'version' must be an integer"
+    if "set" in req and not isinstance(req["set"], dict):
+        error["set"] = "Request 'set' must be a JSON object mapping config symbol names to values"
+    if "reset" in req and not (isinstance(req["reset"], list) and all(isinstance(item, str) for item in req["reset"])):
+        error["reset"] = "Request 'reset' must be a list of config symbol names and/or menu IDs"
+    for key in ("load", "save"):
+        if key in req and req[key] is not None and not isinstance(req[key], str):
+            error[key] = f"Request '{key}' must be a file name or null"
+    for key in error:
+        if key != "version":
+            del req[key]
+    return error
 
 
 def get_sym_default_value_dict(config: kconfiglib.Kconfig) -> Dict[str, bool]:
